@@ -20,6 +20,9 @@ var c01Bool = []string{
 func c01Spec() {
 	vrtSpec(2, 2, 1, "a,b", smASCII, nfInt, 0)
 	vrtNumRange(0, 2)
+	if vrtTier() == 0 {
+		vrtNested(1) // quick: arrays below the root have at most one element
+	}
 }
 
 // c01Unordered: does the template enumerate object members (result order free)?
@@ -32,15 +35,30 @@ func c01Unordered(expr string) bool {
 	return false
 }
 
+// c01Depth: documents are only as deep as the template can look.
+func c01Depth(expr string) int {
+	d := 1
+	for i := 0; i < len(expr); i++ {
+		if expr[i] == '.' || expr[i] == '[' || expr[i] == '*' {
+			d++
+		}
+	}
+	if d > 3 {
+		d = 3
+	}
+	return d
+}
+
 // diffSearch compares Search with the reference on one (expression, document).
 func diffSearch(expr string, doc any, unordered bool) {
 	vrtKnown("C01-F1", knownAdjacentProjection(expr))
 	got, err := Search(expr, doc)
-	want, ec := refSearch(expr, doc)
+	want, ec, env := refSearchEnv(expr, doc)
 	if ec == ecUnspecified {
 		vrtReach("unspecified")
 		return
 	}
+	vrtKnown("C01-F2", env.nullMS)
 	if ec != ecNone {
 		vrtAssert(err != nil, "specification requires an error: "+ecNames[ec])
 		if err != nil {
@@ -115,7 +133,7 @@ func H_C01_chain1() {
 		expr += c01Steps[s-1]
 	}
 	vrtNote("template:" + expr)
-	doc := vrtDoc("d", 3, uJSON, uJSON)
+	doc := vrtDoc("d", c01Depth(expr), uJSON, uJSON)
 	diffSearch(expr, doc, c01Unordered(expr))
 }
 
@@ -134,7 +152,7 @@ func H_C01_chain2() {
 	}
 	expr := c01Heads[h] + c01Steps[s1] + c01Steps[s2]
 	vrtNote("template:" + expr)
-	doc := vrtDoc("d", 3, uJSON, uJSON)
+	doc := vrtDoc("d", c01Depth(expr), uJSON, uJSON)
 	diffSearch(expr, doc, c01Unordered(expr))
 }
 
@@ -144,7 +162,7 @@ func H_C01_forms() {
 	k := vrtChoose("expr", len(c01Bool))
 	expr := c01Bool[k]
 	vrtNote("template:" + expr)
-	doc := vrtDoc("d", 3, uJSON, uJSON)
+	doc := vrtDoc("d", c01Depth(expr), uJSON, uJSON)
 	diffSearch(expr, doc, c01Unordered(expr))
 }
 
